@@ -163,12 +163,13 @@ CHECKS = {
     "C02": {
         "engine": "pcache_conc",
         "level": "exploration",
-        "rule": "Seeded schedules of 2-4 parse() calls (threads of 1-3 simulated processes) on one cache folder in initial "
-                "state absent/empty/fresh/stale/wrong-layout, pre-empted before every SQL statement, connect, close, "
-                "mkdir and remove; configs base (no faults), stall (steps of 0.1-10 simulated s), crash (a process "
-                "killed at a yield point). distinct_nontrivial = distinct schedule signatures (hash of the sequence of "
-                "(actor, seam kind, SQL verb)) in which at least one lock conflict occurred (busy handler invoked or "
-                "immediate SQLITE_BUSY).",
+        "rule": "Seeded schedules of 2-4 parse() calls (threads of 1-3 simulated processes, possibly of two pymoca versions) "
+                "on one cache folder in initial state absent/empty/fresh/stale/wrong-layout, pre-empted before every SQL "
+                "statement, connect, close, mkdir and remove; configs base (no faults), stall (steps of 0.1-10 simulated s, "
+                "and a stand-in process that holds the EXCLUSIVE/RESERVED lock for 0.3-12 s as one stalled inside COMMIT "
+                "does), crash (a process killed at a yield point), crowd (6-16 processes released at once). "
+                "distinct_nontrivial = distinct schedule signatures (hash of the sequence of (actor, seam kind, SQL verb)) "
+                "in which at least one lock conflict occurred (busy handler invoked or immediate SQLITE_BUSY).",
         "assumptions": ["SQLite's own page/journal writes are trusted (no VFS shim)", "a seeded sample of schedules, not "
                         "all of them", "free-running 16-process stress is not part of the check (not replayable)"],
         "components": _COMPONENTS_COMMON,
